@@ -197,7 +197,7 @@ func (v Value) Slice(i, j int) Value {
 	if v.value != nil || i != 0 || j != 0 {
 		return v.value.Slice(i, j)
 	}
-	return newSlice(v.t.value(), nil)
+	return v // s[0:0] of a nil slice is nil
 }
 func (v Value) GetAttr(key string) Value        { return v.value.GetAttr(key) }
 func (v Value) SetAttr(key string, value Value) { v.value.SetAttr(key, value) }
